@@ -133,6 +133,11 @@ func (r *Realm) ObjectDefineProperties(o Value, properties Value) Value {
 	}
 	var descriptors []pair    // 4
 	for _, p := range names { // 5
+		if r.Quirk.PropertyMapLateFilter {
+			if d := r.GetOwnProperty(props, p); d == nil || !d.Enumerable {
+				continue
+			}
+		}
 		descObj := r.Get(props, p)
 		desc := r.ToPropertyDescriptor(descObj)
 		descriptors = append(descriptors, pair{p, desc})
